@@ -199,6 +199,30 @@ Theorem C11_acos2_inverts : forall (L : libm R) (L2 : libm2 R), l_acos L2 = acos
 Proof. exact acos2_recover. Qed.
 Print Assumptions C11_acos2_inverts.
 
+(* ---- round 4: the clock of the pericentre time T ------------------------------------------------------------- *)
+(* T and M of every returned orbit satisfy (t0 - T)|n| = M modulo 2pi, where t0 is the clock handed to the routine ... *)
+Theorem C11_orbit_T_relation : forall (L : libm R) (L2 : libm2 R), 0 < l_pi L -> fmod_spec (l_fmod L) ->
+  forall tiny G t0 p prim o, orbit_from_particle_err RNum L L2 tiny G t0 p prim = inr o -> o_n o <> 0 ->
+  exists k : Z, (t0 - o_T o) * Rabs (o_n o) = o_M o + IZR k * (2 * l_pi L).
+Proof. intros L L2 Hpi Hfm. exact (orbit_T_relation L L2 Hpi Hfm). Qed.
+Print Assumptions C11_orbit_T_relation.
+
+(* ... and that clock is the time of the PARTICLE's simulation (0 when the particle is in none), whatever the primary's
+   simulation pointer is (the centre-of-mass primaries have none).  The binary64 instance of orbit_from_particle_sim is
+   compared with p.orbit() / sim.orbits() / reb_orbit_from_particle on simulations with t <> 0. *)
+Theorem C11_orbit_clock_is_the_particles : forall (L : libm R) (L2 : libm2 R) tiny G t primsim p prim,
+  orbit_from_particle_sim RNum L L2 tiny G (Some t) primsim p prim = orbit_from_particle_err RNum L L2 tiny G t p prim /\
+  orbit_from_particle_sim RNum L L2 tiny G None primsim p prim = orbit_from_particle_err RNum L L2 tiny G 0 p prim.
+Proof. intros. split; reflexivity. Qed.
+Print Assumptions C11_orbit_clock_is_the_particles.
+
+(* T -> M = n(t-T) (front ends, Flow.v) -> T: same |n| and the same mean anomaly up to whole turns give T back up to
+   whole periods (a is proved to be recovered; M modulo 2pi is not proved, see level_note) *)
+Theorem C11_T_roundtrip_mod_period : forall t Tp n (k : Z), 0 < n ->
+  t - (n * (t - Tp) + IZR k * (2 * PI)) / Rabs n = Tp - IZR k * (2 * PI / n).
+Proof. exact T_roundtrip_mod_period. Qed.
+Print Assumptions C11_T_roundtrip_mod_period.
+
 (* Non-vacuity: a concrete inclined eccentric orbit (cos/sin pairs 3/5,4/5 etc.) meets every hypothesis. *)
 Example C11_hypotheses_inhabited :
   let t := mkTrig (3/5) (4/5) (5/13) (12/13) (-4/5) (3/5) (8/17) (15/17) in
